@@ -4,6 +4,8 @@ The outcome is a fixed function (Spec/Denote) of the SET of operations.
 -/
 import Orda.Proofs.MapCounter
 import Orda.Proofs.Rga
+import Orda.Proofs.RgaFull
+import Orda.Proofs.DocConv
 namespace Orda.Props.C02
 open Orda
 
@@ -47,6 +49,62 @@ theorem list_delete_dominates (s s' : Rga) (tg : List Ts) (vs : List JVal) (ts :
     (hu : s.updateRemote tg vs ts = .ok s') (h : ∃ n ∈ s.nodes, n.o = x ∧ n.v = none) :
     ∃ n ∈ s'.nodes, n.o = x ∧ n.v = none :=
   updateRemote_keeps_tomb s s' tg vs ts x hu h
+
+/-- list, the whole merge rule for EVERY history of inserts/updates/deletes applied in any causal order:
+    an element is a tombstone iff some delete of the history targeted it (delete dominates whatever the
+    timestamps and the arrival order; an update never revives it) … -/
+theorem list_deleted_iff_some_delete (ops : List LOp) (hc : LCausal ops) (n : RNode)
+    (hn : n ∈ (Rga.empty.applyAllL ops).nodes) :
+    n.v = none ↔ ∃ tgs ts, LOp.del tgs ts ∈ ops ∧ n.o ∈ tgs :=
+  rga_tombstone_iff ops hc n hn
+
+/-- … and an element that was never deleted holds the value of its newest update (greatest timestamp among
+    the updates newer than its insert), or the inserted value when there is none; a deleted element is
+    stamped with the greatest delete stamp. A fixed function of the SET of operations. -/
+theorem list_element_is_newest_update (ops : List LOp) (hc : LCausal ops) (n : RNode)
+    (hn : n ∈ (Rga.empty.applyAllL ops).nodes) :
+    ∃ a ts vals v0, LOp.ins a ts vals ∈ ops ∧ (⟨n.o, some v0, n.o⟩ : RNode) ∈ mkNodes ts vals ∧
+      ((∃ p ∈ ops, ∃ t, p.eff n.o = .del t) →
+        n.v = none ∧ (∃ p ∈ ops, p.eff n.o = .del n.t) ∧
+        ∀ p ∈ ops, ∀ t, p.eff n.o = .del t → t.cmp n.t ≠ .gt) ∧
+      ((¬ ∃ p ∈ ops, ∃ t, p.eff n.o = .del t) →
+        (n.v = some v0 ∧ n.t = n.o ∧ ∀ p ∈ ops, ∀ v t, p.eff n.o = .upd v t → n.o.cmp t ≠ .lt) ∨
+        (∃ p ∈ ops, ∃ v, p.eff n.o = .upd v n.t ∧ n.v = some v ∧ n.o.cmp n.t = .lt ∧
+          ∀ q ∈ ops, ∀ v' t', q.eff n.o = .upd v' t' → t'.cmp n.t ≠ .gt)) :=
+  rga_payload_spec ops hc n hn
+
+/-- the maxima above are unique: two effective deletes/updates of one element with equal stamps are the
+    same operation -/
+theorem list_newest_is_unique (ops : List LOp) (hc : LCausal ops) (x : Ts) (p q : LOp) (hp : p ∈ ops)
+    (hq : q ∈ ops) (t1 t2 : Ts) (h1 : (p.eff x).stamp? = some t1) (h2 : (q.eff x).stamp? = some t2)
+    (he : t1.cmp t2 = .eq) : p = q :=
+  eff_stamp_unique ops hc x p q hp hq t1 t2 h1 h2 he
+
+open Orda.DC in
+/-- document object key: after ANY order of puts/removes, the LWW state of key k of object p is the
+    initial state merged with the operation of the greatest timestamp on (p,k) — the document analogue of
+    `map_key_is_max_timestamp` -/
+theorem doc_key_is_max_timestamp {d : Doc} {ops : List ObjOp} (h : Good d ops) {p : Ts} {n : DNode}
+    (hp : d.find p = some n) (k : String) :
+    keyOf' (applyAll d ops) p k = lww (keyOf' d p k) (Spec.maxBy ObjOp.ts (keyOps p k ops)) :=
+  key_denote h hp k
+
+open Orda.DC in
+/-- … if that operation is a put, the key shows that put's value (any nesting depth), in any order -/
+theorem doc_key_shows_newest_put {d : Doc} {l : List ObjOp} (h : Good d l) (hv : ViewOK d) (hk : ∀ o ∈ l, OpKeysND o)
+    {p : Ts} {n : DNode} (hp : d.find p = some n) {k : String} {p' : Ts} {k' : String} {v : JVal} {ts : Ts}
+    (hw : Spec.maxBy ObjOp.ts (keyOps p k l) = some (.put p' k' v ts))
+    (hnew : ∀ st, keyOf' d p k = some st → st.time.cmp ts = .lt) :
+    ((applyAll d l).viewAt ts).canon = v.canon := key_value_denote h hv hk hp hw hnew
+
+open Orda.DC in
+/-- … if it is a remove, the key's occupant is a tombstone stamped with the remove (absent from the view) -/
+theorem doc_key_removed_by_newest_remove {d : Doc} {ops : List ObjOp} (h : Good d ops) {p : Ts} {n : DNode}
+    (hp : d.find p = some n) {k : String} {p' : Ts} {k' : String} {ts : Ts}
+    (hw : Spec.maxBy ObjOp.ts (keyOps p k ops) = some (.del p' k' ts))
+    (hnew : ∀ st, keyOf' d p k = some st → st.time.cmp ts = .lt) :
+    ∃ c, occupant (applyAll d ops) p k = some c ∧ (applyAll d ops).isTomb c = true ∧
+      (applyAll d ops).timeOf c = ts := key_denote_del h hp hw hnew
 
 -- non-vacuity: a concrete conflict (remove older than a concurrent put) resolves to the put
 example :
